@@ -280,7 +280,7 @@ func (m *Machine) inclusion(isList bool) incResult {
 				}
 				// nested macro symbol
 				if e.kind == "NESTED_OBJ" || e.kind == "NESTED_LIST" {
-					if nestedCalls != 1 || iadds != 1 || ex.Kind != "CONTINUE" {
+					if nestedCalls != 1 || iadds != 1 || (ex.Kind != "CONTINUE" && ex.Kind != "FALL") { // a path that reaches the end of the body continues with the post statement exactly like continue
 						bad(ps, e, "nested value: %d recursive calls, %d resumptions, exit %s", nestedCalls, iadds, ex.Kind)
 					}
 				} else if nestedCalls != 0 || iadds != 0 {
